@@ -91,6 +91,46 @@ pub fn frag_case() -> BoxedStrategy<FragCase> {
         .boxed()
 }
 
+/// Slivers a few ulps across whose geometry is exact by construction, so that the position of every fragment relative
+/// to the triangle is known exactly and the 0.5 % bound applies undiluted (the general D-c widening divides the
+/// stepping error of sloped edges by the local thickness and says nothing about them):
+///   V: long edge exactly vertical, 1..3 ulps left of a pixel-centre column c (or on it), the third vertex 1..3 ulps
+///      to the right, 17..60 rows tall  (x of the long edge is never stepped: x += 0)
+///   H: base exactly horizontal, 0..3 ulps above/below a pixel-centre row r, the apex 1..3 ulps beyond the row centre,
+///      17..60 px wide  (cy - y is an exact subtraction; the x gradient is moderate)
+/// Coordinates c, r are below 8 so that ulps are 6e-8 .. 5e-7 px (the area still exceeds 1e-6 px^2).
+pub fn exact_sliver_case() -> BoxedStrategy<FragCase> {
+    let zs = prop_oneof![1 => Just([1.0f32, 1.0, 1.0]), 1 => Just([1.0f32, 0.5, 0.25]), 3 => [0.1f32..=1.0, 0.1f32..=1.0, 0.1f32..=1.0]];
+    let ty = prop_oneof![3 => Just("f32"), 1 => Just("Vec2"), 1 => Just("(f32,Vec2)")];
+    let attrs = proptest::array::uniform3(proptest::array::uniform6(attr_val()));
+    ((0u32..8, 0i32..=3, 1i32..=3, 17.0f32..60.0, 0.0f32..1.0, screen_coord(8.0), any::<bool>(), 0u8..12), zs, ty, attrs)
+        .prop_map(|((i, k, j, len, t, off, horizontal, perm), z, ty, a)| {
+            // H only: the mirror image (base on/below the row centre line, apex above it) is exact as well
+            let mirror = horizontal && perm >= 6;
+            let perm = perm % 6;
+            let c = i as f32 + 0.5;
+            let sg = if mirror { -1 } else { 1 };
+            let edge = nudge(c, -k * sg); // the exact long edge, k ulps before the centre line
+            // the third vertex on the centre line or up to 2 ulps beyond it (never coinciding with the long edge)
+            let m = if k == 0 && j == 1 { 1 } else { j - 1 };
+            let apex = nudge(c, m * sg);
+            let (a0, a1) = (off, off + len);
+            let am = a0 + (a1 - a0) * t.clamp(0.05, 0.95);
+            let v = if horizontal {
+                // base on y = edge from x = a0 to a1, apex at y = apex: rows are centred on c
+                [[a0, edge], [am, apex], [a1, edge]]
+            } else {
+                [[edge, a0], [apex, am], [edge, a1]]
+            };
+            let order = [[0, 1, 2], [0, 2, 1], [1, 0, 2], [1, 2, 0], [2, 0, 1], [2, 1, 0]][perm as usize];
+            let v = order.map(|q| v[q]);
+            let z = order.map(|q| z[q]);
+            let a = order.map(|q| a[q]);
+            FragCase { tri: TriCase { shape: "exact-sliver".into(), v: v.map(|p| [X(p[0]), X(p[1])]) }, z: xs(z), ty: ty.to_string(), a: a.map(xs) }
+        })
+        .boxed()
+}
+
 /// One fragment as observed: scanline y, index along the row, position and attribute components.
 pub struct FragObs {
     pub y: usize,
@@ -201,6 +241,15 @@ fn plane_at(t: [P2; 3], v: [f64; 3], l: [f64; 3]) -> f64 {
     l[0] * v[0] + l[1] * v[1] + l[2] * v[2]
 }
 
+fn zratio_of(z: &[f64; 3]) -> f64 {
+    let lo = z.iter().cloned().fold(f64::MAX, f64::min);
+    if lo > 0.0 {
+        z.iter().cloned().fold(f64::MIN, f64::max) / lo
+    } else {
+        f64::INFINITY
+    }
+}
+
 pub fn check(c: &FragCase, obs: &mut Obs) -> Check {
     let t = c.tri.pts64();
     let n = ncomp(&c.ty);
@@ -226,7 +275,14 @@ pub fn check(c: &FragCase, obs: &mut Obs) -> Check {
     // fragment only to within pos_err(S) px, i.e. to within pos_err/altitude of the way across the triangle, and the
     // perspective gradient can be up to z-ratio times the average one: that relative error is added. When it
     // exceeds the whole range the interpolation clause says nothing (finiteness only).
-    let well_shaped = alt >= 1.0 && maxc <= 128.0;
+    // exact slivers (see exact_sliver_case): validated below, then asserted at full strength
+    let exact_sliver = c.tri.shape == "exact-sliver" && {
+        let p = c.tri.pts();
+        let vertical = (0..3).any(|i| p[i][0] == p[(i + 1) % 3][0] && p[(i + 2) % 3][0] > p[i][0] && (p[i][1] - p[(i + 1) % 3][1]).abs() >= 17.0);
+        let horizontal = (0..3).any(|i| p[i][1] == p[(i + 1) % 3][1] && p[(i + 2) % 3][1] != p[i][1] && (p[i][0] - p[(i + 1) % 3][0]).abs() >= 17.0);
+        (vertical || horizontal) && maxc <= 128.0 && zratio_of(&z) <= 10.0
+    };
+    let well_shaped = (alt >= 1.0 && maxc <= 128.0) || exact_sliver;
     let zmin = z.iter().cloned().fold(f64::MAX, f64::min);
     let zratio = if zmin > 0.0 { z.iter().cloned().fold(f64::MIN, f64::max) / zmin } else { 1.0 };
     let pos_err = (6.7e-8 * maxc * maxc).max(5e-7 * maxc.max(1.0));
@@ -272,6 +328,12 @@ pub fn check(c: &FragCase, obs: &mut Obs) -> Check {
             continue;
         }
         let Some(l) = bary(t, centre) else { continue };
+        if exact_sliver && l.iter().any(|&b| b < 0.0) {
+            // the fill rule admitted a centre that lies outside the exact triangle (by less than an ulp): the plane is
+            // extrapolated there by many times the vertex range and the perspective division is ill-conditioned
+            obs.class_n("exact-sliver:fragments outside the exact triangle (finite-only)", 1);
+            continue;
+        }
         // local thickness of the triangle through this pixel centre (along the row and along the column): towards a thin
         // triangle's apex it goes to zero, and with it the accuracy of "where across the triangle" the fragment lies
         let steep = if well_shaped {
@@ -300,7 +362,9 @@ pub fn check(c: &FragCase, obs: &mut Obs) -> Check {
             continue;
         }
         let pz = plane_at(t, z, l);
-        let ztol = (0.005 * zr + round_floor * zmag) * factor + steep * zr;
+        // the plane value at a centre a hair outside a sliver is extrapolated far beyond the vertex range: f32 carries
+        // it to a relative, not an absolute, accuracy
+        let ztol = (0.005 * zr + round_floor * zmag.max(pz.abs())) * factor + steep * zr;
         let ez = (f.pos[2] as f64 - pz).abs();
         obs.max(if well_shaped { "depth-error/tolerance (well-shaped)" } else { "depth-error/tolerance (thin or large)" }, ez / ztol);
         ensure!(ez <= ztol, "depth-interpolation", "pixel ({},{}) depth {} but the plane through the vertex depths gives {:.7} (tolerance {:.2e})", f.x, f.y, f.pos[2], pz, ztol);
@@ -309,7 +373,7 @@ pub fn check(c: &FragCase, obs: &mut Obs) -> Check {
             let expect = if is_color { paz } else { paz / pz };
             let lo = a[k].iter().cloned().fold(f64::MAX, f64::min);
             let hi = a[k].iter().cloned().fold(f64::MIN, f64::max);
-            let mag = lo.abs().max(hi.abs());
+            let mag = lo.abs().max(hi.abs()).max(expect.abs());
             let tol = (0.005 * (hi - lo) + round_floor * mag + 1e-7) * factor + steep * (hi - lo);
             let e = (f.comps[k] as f64 - expect).abs();
             obs.max(if well_shaped { "attribute-error/tolerance (well-shaped)" } else { "attribute-error/tolerance (thin or large)" }, e / tol);
@@ -330,7 +394,10 @@ pub fn check(c: &FragCase, obs: &mut Obs) -> Check {
             );
         }
     }
-    obs.class(shape_class(&c.tri.shape));
+    obs.class(if c.tri.shape == "exact-sliver" { "shape:exact-sliver(1..6 ulps across)" } else { shape_class(&c.tri.shape) });
+    if exact_sliver {
+        obs.class_n("exact-sliver:fragments", frags.len() as u64);
+    }
     obs.class(match c.ty.as_str() {
         "f32" => "attr:f32",
         "Vec2" => "attr:Vec2",
@@ -374,6 +441,9 @@ pub fn run(cx: &mut Ctx) {
     cx.assume("colour attributes are interpolated affinely by design (ZDiv identity); they are generated with equal depth at the three vertices (DESIGN D-e)");
     let n = cx.n(300_000, 10_000_000);
     cx.prop_check("fragments", n, frag_case, |c, obs| check(c, obs));
+    cx.assume("exact slivers (long edge exactly vertical / base exactly horizontal within 3 ulps of a pixel-centre line, 1..5 ulps across, 17..60 px long, coordinates < 70): the edge the fragments are measured from is never stepped, so the 0.5 % bound is asserted without the D-c widening");
+    let n = cx.n(40_000, 1_000_000);
+    cx.prop_check("exact-slivers", n, exact_sliver_case, |c, obs| check(c, obs));
 }
 
 pub fn replay(sub: &str, case: &Value) -> Check {
